@@ -279,6 +279,11 @@ def run_case(case, ctx):
         name = 'f%d.asm' % i
         ctx.write(name, text)
         files.append((name, ev, k))
+    if chan == 'perfile' and rng.random() < 0.6:
+        # logs of an earlier run of the same sources: what they say belongs to that run, not to this one
+        for name, _, _ in files:
+            ctx.write(name[:-4] + '.log', '> > > %s(1): error: left over from an earlier run\n' % name)
+        out.obs['stale_logs_planted'] += len(files)
     # ---- model
     exp = []          # per file: dict(E, W, stopped, assembled)
     stop = False
@@ -366,7 +371,8 @@ def run_case(case, ctx):
     elif chan == 'file':
         chan_text = (ctx.read('errors.log') or b'').decode('latin-1')
     else:
-        chan_text = ''.join((ctx.read(n[:-4] + '.log') or b'').decode('latin-1') for n, _, _ in files)
+        # (logs of sources the run never reached - it stopped before them - are whatever they were before the run)
+        chan_text = ''.join((ctx.read(n[:-4] + '.log') or b'').decode('latin-1') for n, _, _ in files[:max(1, len(per_file))])
     if gnu:
         n_w = n_e = 0
         for m in GNU_RE.finditer(chan_text):
